@@ -133,18 +133,35 @@ func runCallers(c *hx.Ctx, cw *hx.CaseWriter) {
 	if err != nil {
 		panic(err)
 	}
+	// scratch tree: <out>/callers/l1/{sb/{a,b}, sbx, cwd/{a,b}}. The sandbox is l1/sb; the process working
+	// directory is l1/cwd (a different directory with the same sub-directories), so a command that opens the raw
+	// argument instead of the sanitized path creates its file outside the sandbox, where the scan sees it.
 	root := filepath.Join(out, "callers")
 	os.RemoveAll(root)
 	sb := filepath.Join(root, "l1", "sb")
 	sib := filepath.Join(root, "l1", "sbx")
-	for _, d := range []string{filepath.Join(sb, "a"), filepath.Join(sb, "b"), sib} {
+	cwd := filepath.Join(root, "l1", "cwd")
+	for _, d := range []string{filepath.Join(sb, "a"), filepath.Join(sb, "b"), sib, filepath.Join(cwd, "a"), filepath.Join(cwd, "b")} {
 		if err := os.MkdirAll(d, 0o755); err != nil {
 			panic(err)
 		}
 	}
 	defer os.RemoveAll(root)
+	oldwd, err := os.Getwd()
+	if err != nil {
+		panic(err)
+	}
+	// the working directory is switched only around the command itself (the case writer may use relative paths)
+	runIn := func(dir string, f func()) {
+		if err := os.Chdir(dir); err != nil {
+			panic(err)
+		}
+		defer os.Chdir(oldwd)
+		f()
+	}
 	paths := []string{"f1", "a/f2", "a/../f3", "./a//f4", "../sb/f5", "../sbx/f6", "../f7", "../../f8", sb + "/f9", sb + "/../sb/a/f10",
-		sb + "x/f11", sib + "/f12", ".", "", "a/..", sb, sb + "/", root + "/f13", "b/../../sbx/f14", "a/b/../../b/f15"}
+		sb + "x/f11", sib + "/f12", ".", "", "a/..", sb, sb + "/", root + "/f13", "b/../../sbx/f14", "a/b/../../b/f15",
+		"../cwd/f16", cwd + "/f17", "b/f18", "./f19", "a/./../b/f20", sb + "/b/../a/f21"}
 	cmdName := []string{"start-cpu-profile", "save-heap-profile", "save-mutex-profile"}
 	for cmd := 0; cmd < 3; cmd++ {
 		for _, p0 := range paths {
@@ -154,10 +171,12 @@ func runCallers(c *hx.Ctx, cw *hx.CaseWriter) {
 			}
 			for _, sbSpelling := range []string{sb, sb + "/"} {
 				before := listFiles(root)
-				nebula.VerifSshFileCommand(cmd, sbSpelling, p)
-				if cmd == 0 {
-					pprof.StopCPUProfile()
-				}
+				runIn(cwd, func() {
+					nebula.VerifSshFileCommand(cmd, sbSpelling, p)
+					if cmd == 0 {
+						pprof.StopCPUProfile()
+					}
+				})
 				after := listFiles(root)
 				var created []string
 				for f := range after {
@@ -172,7 +191,7 @@ func runCallers(c *hx.Ctx, cw *hx.CaseWriter) {
 					os.Remove(f)
 				}
 				cw.Add(hx.App("SshPath_corr.CCaller", hx.N(uint64(cmd)), hx.Str(sbSpelling), hx.Str(p), hx.List(lits)), "caller-"+cmdName[cmd], len(created) > 0,
-					map[string]any{"op": "caller", "cmd": cmdName[cmd], "sandbox": sbSpelling, "path": p, "created": created})
+					map[string]any{"op": "caller", "cmd": cmdName[cmd], "sandbox": sbSpelling, "cwd": cwd, "path": p, "created": created})
 			}
 		}
 	}
